@@ -6,4 +6,5 @@ package h
 // Registry maps harness names to functions taking the integer bounds.
 var Registry = map[string]func(args []int64){
 	"H_Smoke": func(a []int64) { H_Smoke(int(a[0])) },
+	"H_C09":   func(a []int64) { H_C09(int(a[0]), int(a[1])) },
 }
